@@ -35,6 +35,8 @@ let rec fv_expr (bound : IS.t) (acc : IS.t ref) (e : expr) : unit =
   | EBin (_, a, b) | EIf (a, b) | EAssign (a, b) | EWhile (a, b) | EDoWhile (a, b) | EIndex (a, b) -> go a; go b
   | ECond (a, b, c) -> go a; go b; go c
   | EFor (a, b, c, d) -> go a; go b; go c; go d
+  | EForInRange (x, a, b, body) -> go a; go b; fv_expr (IS.add (int_of_n x) bound) acc body
+  | EForInArr (x, a, body) -> go a; fv_expr (IS.add (int_of_n x) bound) acc body
   | ECall (f, args) -> go f; List.iter go args
   | EArrLit (es, _) | ERecNew (_, es) -> List.iter go es
   | EBlock items -> fv_items bound acc items
@@ -67,6 +69,8 @@ let rec closure_free_expr (acc : IS.t ref) (e : expr) : unit =
   | EBin (_, a, b) | EIf (a, b) | EAssign (a, b) | EWhile (a, b) | EDoWhile (a, b) | EIndex (a, b) -> go a; go b
   | ECond (a, b, c) -> go a; go b; go c
   | EFor (a, b, c, d) -> go a; go b; go c; go d
+  | EForInRange (_, a, b, body) -> go a; go b; go body
+  | EForInArr (_, a, body) -> go a; go body
   | ECall (f, args) -> go f; List.iter go args
   | EArrLit (es, _) | ERecNew (_, es) -> List.iter go es
   | EBlock items -> List.iter (closure_free_item acc) items
@@ -97,6 +101,14 @@ let rec rn_expr (r : renamer) (env : int IM.t) (e : expr) : expr =
   | EIndex (a, b) -> EIndex (go a, go b)
   | ECond (a, b, c) -> ECond (go a, go b, go c)
   | EFor (a, b, c, d) -> EFor (go a, go b, go c, go d)
+  | EForInRange (x, a, b, body) ->
+    let a' = go a in let b' = go b in
+    let k = r.bind (int_of_n x) in
+    EForInRange (n_of_int k, a', b', rn_expr r (IM.add (int_of_n x) k env) body)
+  | EForInArr (x, a, body) ->
+    let a' = go a in
+    let k = r.bind (int_of_n x) in
+    EForInArr (n_of_int k, a', rn_expr r (IM.add (int_of_n x) k env) body)
   | ECall (f, args) -> let args' = List.map go args in ECall (go f, args')
   | EArrLit (es, t) -> EArrLit (List.map go es, t)
   | ERecNew (rr, es) -> ERecNew (rr, List.map go es)
@@ -175,6 +187,8 @@ let rec map_rec_expr f e =
   | EIndex (a, b) -> EIndex (go a, go b)
   | ECond (a, b, c) -> ECond (go a, go b, go c)
   | EFor (a, b, c, d) -> EFor (go a, go b, go c, go d)
+  | EForInRange (x, a, b, body) -> EForInRange (x, go a, go b, go body)
+  | EForInArr (x, a, body) -> EForInArr (x, go a, go body)
   | ECall (g, args) -> ECall (go g, List.map go args)
   | EArrLit (es, t) -> EArrLit (List.map go es, map_rec_ty f t)
   | ERecNew (r, es) -> ERecNew (f r, List.map go es)
